@@ -125,6 +125,7 @@ class Gateway:
     def __init__(self, tr, conns):
         self.tr, self.conns = tr, list(conns)
         self.attempt_times = []
+        self.refuse_next = 0
         self.writers = []
         self.readers = []
 
@@ -137,8 +138,12 @@ class Gateway:
         loop = asyncio.get_running_loop()
         self.attempt_times.append(loop.time())
         self.tr.ev("open", len(self.attempt_times))
+        refuse = bool(sp.get("refuse"))
+        if self.refuse_next > 0:
+            self.refuse_next -= 1
+            refuse = True
         await _sleep(float(sp.get("delay", 0.0)))       # always a real suspension (sleep(0) yields once)
-        if sp.get("refuse"):
+        if refuse:
             raise ConnectionRefusedError("fake: connection refused")
         r = asyncio.StreamReader()
         w = FakeWriter(self, len(self.writers), r)
@@ -214,9 +219,12 @@ class Tracer:
         self.ntid = 0
         self.client = None
         self.tasks = {}           # id(Traced) -> asyncio.Task (for the snapshot of 'own task finishing')
+        self.rx_tasks = []        # every asyncio.Task created for a _receive_loop coroutine
         self.on_label = None      # hook(n_labels) called after every block / env label
         self.nlabels = 0
         self.loop = None
+        self.max_rx = 0
+        self.states = []          # client._state after every block (consecutive duplicates removed)
 
     def new_tid(self, kind):
         self.ntid += 1
@@ -290,6 +298,18 @@ class Tracer:
 
     def _count(self, b):
         self.nlabels += 1
+        live = 0
+        for t in self.rx_tasks:
+            if not t.done() and not t.cancelling():
+                live += 1
+        fin = b.get("end") in ("ret",) or str(b.get("end", "")).startswith("exc:")
+        if fin and b.get("kind") == "_receive_loop":
+            live -= 1 if not b.get("how", "").startswith("throw") else 0
+        self.max_rx = max(self.max_rx, live)
+        for e in b["ev"] + [[b["snap"]]]:
+            sn = e[-1]
+            if isinstance(sn, dict) and "st" in sn and (not self.states or self.states[-1] != sn["st"]):
+                self.states.append(sn["st"])
         if self.on_label is not None:
             self.on_label(self.nlabels)
 
@@ -666,6 +686,8 @@ async def _session(spec, tr, gw, obs, loop):
 
     async def on_status(s):
         status.append([loop.time(), s.value])
+        if s.value == 2 and "at_closed" not in obs:
+            obs["at_closed"] = {"attempts": len(gw.attempt_times), "writers": len(gw.writers)}
         tr.ev("scb", s.value, "enter")
         if cb_mode in ("slow", "slowraise"):
             await _sleep(cb_delay)
@@ -719,7 +741,11 @@ async def _session(spec, tr, gw, obs, loop):
                 async def closer():
                     pass
                 t = loop.create_task(client.close())
-                t.add_done_callback(lambda _t: close_info.__setitem__("returned", loop.time()))
+
+                def closed_cb(_t):
+                    close_info["returned"] = loop.time()
+                    close_info["rcb_at_return"] = len(rcbs)
+                t.add_done_callback(closed_cb)
                 user_tasks.append(t)
         elif name == "send":
             user_tasks.append(loop.create_task(client.send(msg)))
@@ -737,6 +763,8 @@ async def _session(spec, tr, gw, obs, loop):
             tr.env("eof", cur_reader())
         elif name == "reset":
             tr.env("reset", cur_reader())
+        elif name == "refuse_next":
+            gw.refuse_next = int(op[1])
         elif name == "wmode":       # behaviour of the current writer from now on
             w = cur_writer()
             if w is not None:
@@ -779,6 +807,17 @@ async def _session(spec, tr, gw, obs, loop):
     obs["cur_wid"] = client.writer.wid if client.writer is not None else -1
     obs["rx_alive"] = client._receive_task is not None and not client._receive_task.done()
     obs["nblocks"] = len(tr.blocks)
+    obs["npos"] = tr.nlabels
+    obs["max_rx"] = tr.max_rx
+    obs["states"] = tr.states
+    bo = {}
+    for b in tr.blocks:
+        if b["kind"] == "connect":
+            for e in b["ev"]:
+                if e[0] == "sleep" and e[1] != 0.01:
+                    bo.setdefault(b["tid"], []).append(e[1])
+    obs["backoffs"] = list(bo.values())
+    obs["faults"] = [[b["vt"], b["what"]] for b in tr.blocks if b["kind"] == "env" and b["what"] in ("eof", "reset")]
     try:
         labels = labelise(tr.blocks)
         obs["labels"] = [[a, s] for a, s in labels]
@@ -803,6 +842,8 @@ def _hook_create_task():
         t = orig(self, coro, **kw)
         if isinstance(coro, Traced):
             coro.tr.tasks[id(coro)] = t
+            if coro.kind == "_receive_loop":
+                coro.tr.rx_tasks.append(t)
         return t
     base.create_task = create_task
 
@@ -910,3 +951,39 @@ if __name__ == "__main__":
         print(json.dumps({k: v for k, v in o.items() if k != "labels"}))
         for l in o["labels"] or []:
             print(l[0], l[1])
+
+
+# --------------------------------------------------------------------------- 4. session families (C13, C14)
+
+GARBAGE = (b"\xff\x00$garbage,not a frame\r\n\xaa\x55\x01\x02" + bytes(range(7, 30)) + b"\nA0 zz\n").hex()
+
+BASE_CONNS = [{"refuse": True}, {"delay": 0.3, "drain": "susp"}, {"delay": 0.1}]
+BASE_SCRIPT = [["connect"], ["run", 2.0], ["frames", 2], ["run", 0.2], ["connect"], ["partial"], ["run", 0.2],
+               ["send"], ["run", 0.2], ["eof"], ["run", 1.5], ["frames", 1], ["run", 0.3],
+               ["wmode", "fail"], ["send"], ["run", 1.0], ["frames", 1], ["run", 0.5]]
+RECOVERY_TAIL = [["run", 12.0], ["frames", 1], ["run", 0.5]]     # C13: after every back-off, a new frame must arrive
+
+FAULTS = {"eof": [["eof"]], "reset": [["reset"]], "writeerr": [["wmode", "fail"], ["send"]],
+          "garbage_eof": [["feed", GARBAGE], ["eof"]], "refuse3_eof": [["refuse_next", 3], ["eof"]],
+          "refuse7_reset": [["refuse_next", 7], ["reset"]], "drainerr": [["wmode", "suspfail"], ["send"]],
+          "sorry": [["feed", b"Sorry,Limited".hex()]]}
+
+
+def spec(client, cb="ret", rcb="ret", script=None, conns=None, inject=None, tail=None, settle=35.0, **kw):
+    d = {"client": client, "cb": cb, "rcb": rcb, "conns": list(BASE_CONNS if conns is None else conns),
+         "script": list(BASE_SCRIPT if script is None else script) + list(tail or []), "settle": settle}
+    if inject is not None:
+        d["inject"] = inject
+    d.update(kw)
+    return d
+
+
+def trace_cases(obs_list):
+    """Coq cases (kind * list label) for the runs that produced a labelled trace"""
+    cases, idx = [], []
+    for i, o in enumerate(obs_list):
+        if o.get("labels") is None:
+            continue
+        cases.append(f"({KIND[o['client']]}, {coq_trace(o['labels'])})")
+        idx.append(i)
+    return cases, idx
